@@ -1213,7 +1213,9 @@ the ones that failed to resolve removed."""
             uscore_enums[uscored] = enum
             uscore_enums[enum.name] = enum
 
-        for node in self._namespace.values():
+        # Look at every function, including those which have been moved into
+        # a class as static methods in the meantime.
+        for node in list(self._namespace.symbols.values()):
             if not isinstance(node, ast.ErrorQuarkFunction):
                 continue
             full = node.symbol[:-len('_quark')]
